@@ -700,6 +700,11 @@ impl World {
             }
         }
     }
+    pub fn risk_metas_for_bank(&self, bank_key: &Pubkey) -> Vec<AccountMeta> {
+        let mut v = vec![];
+        self.bank_obs_metas(bank_key, &mut v);
+        v
+    }
     /// Observation accounts for `acct` in the order the risk engine walks them: active balances
     /// sorted by bank key descending; `include` is added if not yet active; `exclude` removed.
     pub fn risk_metas(&self, acct: &Pubkey, include: Option<Pubkey>, exclude: Option<Pubkey>) -> Vec<AccountMeta> {
